@@ -3,7 +3,7 @@
    Print Assumptions beneath each.  The model is Model/PropLayer.v: `step`/`run_state` are the
    functions the correspondence check runs (run_case = run_ops (init ..) ops). *)
 From Coq Require Import ZArith List Bool.
-From Mesa Require Import Common.ListX Model.PropLayer Proofs.PropLayerProofs Proofs.PropLayerEmpty.
+From Mesa Require Import Common.ListX Generated.Tables Model.PropLayer Proofs.PropLayerProofs Proofs.PropLayerEmpty.
 Import ListNotations.
 Open Scope Z_scope.
 
@@ -56,6 +56,21 @@ Theorem C11_bulk_modify : forall st n fm f hasval cd st' c,
   (s_discrete st = true -> cell_read st' c n = layer_read st' n c).
 Proof. exact modify_cells_spec. Qed.
 Print Assumptions C11_bulk_modify.
+
+(* T1: in the CURRENT source of both implementations the filter stages of select_cells come in
+   the order masks, only_empty, conditions, extreme values (the model runs them in the extracted
+   order, so a reordering in the source breaks this theorem and with it C11_select_exact) ... *)
+Theorem C11_source_select_order :
+  gen_select_order_discrete = [SMasks; SEmpty; SConds; SExts] /\
+  gen_select_order_legacy = [SMasks; SEmpty; SConds; SExts].
+Proof. exact source_select_order. Qed.
+Print Assumptions C11_source_select_order.
+
+(* ... and only_empty and-s an ARRAY into the mask: `self._mesa_property_layers["empty"].data`
+   (not the PropertyLayer object, defect #15) resp. `self.empty_mask` *)
+Theorem C11_source_only_empty_array : gen_select_empty_is_array = (true, true).
+Proof. reflexivity. Qed.
+Print Assumptions C11_source_only_empty_array.
 
 (* select_cells, both implementations, any state: the selected coordinates are exactly the grid
    coordinates that satisfy every mask, the only_empty flag (through the emptiness layer / mask),
